@@ -1,6 +1,7 @@
 package rules
 
 import (
+	"go/token"
 	"strings"
 
 	"golang.org/x/tools/go/ssa"
@@ -54,8 +55,11 @@ func c03(c *Ctx) {
 	r.Decides("the ancestor walk succeeds only at the root, compares every ancestor against the same limit selector, and recurses only after the comparison passed")
 	r.Decides("the limit selector returns the runtime quota exactly when runtime quota is enabled, else max; the admission snapshot takes its limit from that selector")
 	r.Decides("Reserve/Unreserve always reach the accounting entry points (non-skip paths); those entry points check-and-update under the hierarchy write lock; a pod's used/non-preemptible-used delta is applied unless both are zero")
+	r.Decides("the accounting steps of the pod-event entry points come in matching pairs (an assigned pod's used amount is always released before it leaves a quota; nothing is released twice), and a pod moved between quotas of one manager keeps its assigned state")
 	r.Declines("the closed-loop invariant used <= max over histories (needs C01's arithmetic) and completeness of rejections")
 
+	quotaPairing(c)
+	c03move(c)
 	if fn := c.Fn(quotaPluginPkg, "Plugin", "PreFilter"); fn != nil {
 		c03prefilter(c, fn)
 	}
@@ -361,4 +365,61 @@ func c03recursive(c *Ctx, fn *ssa.Function) {
 			r.Check(strings.HasSuffix(an.Path(cl.Common().Args[2]), ".ParentName"), "FLOW", key+"/recursion-to-parent", c.InstrPos(cl), "recursion continues with the parent", "the recursion does not continue with quotaInfo.ParentName")
 		}
 	}
+}
+
+// c03move: a pod that moves between quotas of ONE manager must go through MigratePod/OnPodUpdate (which carry the
+// assigned state over); the delete+add pair is only for managers that are known to differ.
+func c03move(c *Ctx) {
+	r := c.R
+	r.Rule("PATH(move): in package elasticquota, wherever GroupQuotaManager.OnPodDelete(q, p) can be followed by GroupQuotaManager.OnPodAdd(q', p') in one function, the pair is dominated by a test that tells the two managers apart (a comparison of tree ids / GetTreeID()); otherwise a reserved-but-unbound pod would lose its used amount in the move (OnPodAdd re-derives it from spec.nodeName only)")
+	n := 0
+	for _, fn := range c.PkgFuncs(quotaPluginPkg) {
+		var dels, adds []ssa.CallInstruction
+		for _, cl := range an.Calls(fn, false) {
+			f := cl.Common().StaticCallee()
+			if f == nil || f.Signature.Recv() == nil || !isNamedType(f.Signature.Recv().Type(), "GroupQuotaManager") {
+				continue
+			}
+			switch f.Name() {
+			case "OnPodDelete":
+				dels = append(dels, cl)
+			case "OnPodAdd":
+				adds = append(adds, cl)
+			}
+		}
+		for i, d := range dels {
+			reach := an.Explore(fn, an.After(d), nil, nil)
+			for j, a := range adds {
+				if !reach.Reached(a) {
+					continue
+				}
+				n++
+				treeTest := false
+				gs := append(an.Guards(d), an.Guards(a)...)
+				isTreeID := func(v ssa.Value) bool {
+					if call, ok := v.(*ssa.Call); ok && an.ShortCallee(&call.Call) == "GetTreeID" {
+						return true
+					}
+					if e, ok := v.(*ssa.Extract); ok && e.Index == 1 {
+						if call, ok := e.Tuple.(*ssa.Call); ok && an.ShortCallee(&call.Call) == "getPodAssociateQuotaNameAndTreeID" {
+							return true
+						}
+					}
+					return false
+				}
+				for _, g := range gs {
+					if bo, ok := g.Cond.(*ssa.BinOp); ok && (bo.Op == token.EQL || bo.Op == token.NEQ) && (isTreeID(bo.X) || isTreeID(bo.Y)) {
+						// the pair must sit on the "differ" side of the comparison
+						if (bo.Op == token.NEQ) == g.Truth {
+							treeTest = true
+						}
+					}
+				}
+				sameMgr := d.Common().Args[0] == a.Common().Args[0]
+				r.Check(treeTest && !sameMgr, "PATH", sprintf("%s/delete#%d-add#%d/distinct-managers", fkey(fn), i+1, j+1), c.InstrPos(a), "the delete+add pair is used only across different trees",
+					sprintf("OnPodDelete followed by OnPodAdd for a moved pod without a dominating tree-id test (same manager value: %v): within one manager this drops the assigned state of a reserved, not yet bound pod - its used amount vanishes and the quota over-admits; MigratePod/OnPodUpdate must be used there", sameMgr))
+			}
+		}
+	}
+	r.Floor("PATH", "delete+add move sites", n, 2)
 }
